@@ -16,6 +16,7 @@ inductive FKind where
 structure LField where
   name : String
   kind : FKind
+  tw : Nat                -- size in bytes of the field's Rust type (what `to_be_bytes()` emits)
   deriving Repr, DecidableEq
 
 abbrev Layout := List LField
@@ -47,7 +48,7 @@ def Layout.get (lay : Layout) (name : String) (vals : List Nat) : Nat := vals.ge
 
 def Layout.widthOf (lay : Layout) (name : String) : Nat :=
   match lay.find? (·.name == name) with
-  | some f => f.kind.width
+  | some f => f.tw
   | none => 0
 
 /-- `to_be_bytes` of one struct: the fields named in `order`, each at its declared width -/
